@@ -134,9 +134,13 @@ class Prop(Check):
         if case.get("file"):
             L.tmp = tempfile.mkdtemp(prefix="verif-obj-")
             L.file = os.path.join(L.tmp, "mini.txt")
-            with open(L.file, "wb") as f:
-                f.write(raw.encode("utf-8"))
-            L.model = L.mm.model_from_file(L.file)
+            try:
+                with open(L.file, "wb") as f:
+                    f.write(raw.encode("utf-8"))
+                L.model = L.mm.model_from_file(L.file)
+            except BaseException:
+                G.cleanup(L)
+                raise
         else:
             L.model = L.mm.model_from_str(raw)
         return L
